@@ -774,7 +774,14 @@ def _run_task(task):
     detail = ':power0' if spec[0] == 'pow' and spec[2] == 0 else ''
 
     def viol(oracle, what, replay, found=True):
-        res['viol'].append((f'{oracle}:{oc}{detail}', f'{name}: {what}',
+        det = detail
+        if spec[0] == 'vlg' and isinstance(replay.get('params'), list):
+            # ties among the largest location parameters: the softmax mixture is (nearly)
+            # singular there and its unitary polar factor is not differentiable
+            loc = sorted(replay['params'][-len(spec[2]):], reverse=True)
+            if len(loc) > 1 and loc[0] - loc[1] < 0.3:
+                det = ':tie'
+        res['viol'].append((f'{oracle}:{oc}{det}', f'{name}: {what}',
                             dict(replay, spec=repr(spec), name=name), found))
         res['bad'].add(oracle)
 
